@@ -1,7 +1,116 @@
 import ConfModel.Driver.Common
+import ConfModel.Model.Run
+import ConfModel.Spec.Glob
 namespace ConfModel.Driver.C05
-open Lean ConfModel.Driver
+open Lean ConfModel.Driver ConfModel.Run ConfModel.Trie ConfModel.Glob
 
-def handle : Handler := fun op _inp _impl => bad ("C05: unknown op " ++ op)
+def split (s : String) : List String := s.splitOn "/"
+
+structure Req where
+  name : String
+  port : Nat
+  proto : Nat
+  ver : Nat
+  hasCert : Bool
+  hasCreds : Bool
+  hdrName : List String
+  codec : Nat
+  comp : Nat
+  t : Int
+
+structure Srv where
+  port : Nat
+  inst : Inst
+  start : Int
+  stop : Option Int
+
+def contains (s sub : String) : Bool := (s.splitOn sub).length > 1
+
+/-- servers from their start / stop records (one process = one port) -/
+def servers (recs : List Json) : List Srv :=
+  let starts := recs.filter (fun r => str (field r "ev") == "start")
+  starts.map (fun r =>
+    let pid := nat (field r "pid")
+    let stop := (recs.find? (fun q => str (field q "ev") == "stop" && nat (field q "pid") == pid)).map (fun q => int (field q "t"))
+    ⟨nat (field r "port"), ⟨nat (field r "proto"), nat (field r "ver"), bool (field r "tls"), bool (field r "certs")⟩, int (field r "t"), stop⟩)
+
+/-- maximum number of simultaneously alive servers (sweep over start/stop instants) -/
+def maxAlive (ss : List Srv) : Nat :=
+  ss.foldl (fun m s =>
+    let alive := (ss.filter (fun o => o.start ≤ s.start && (match o.stop with | some e => s.start < e | none => true))).length
+    max m alive) 0
+
+def handle : Handler := fun op inp impl =>
+  match op with
+  | "run" =>
+    if !(isNull (field impl "panic")) then
+      { agree := false, holds := false, why := "panic: " ++ str (field impl "panic") } else
+    if str (field impl "loadErr") != "" then
+      { agree := true, holds := true, nontrivial := false, cls := "load-error" } else
+    let mode := str (field inp "mode")
+    let beh := str (field inp "behaviour")
+    let run := (strList (field inp "run")).map split
+    let skip := (strList (field inp "skip")).map split
+    let maxS := nat (field inp "maxServers")
+    let perms : List (Perm × Json) := (arr (field impl "perms")).map (fun p =>
+      (⟨split (str (field p "name")), ⟨nat (field p "proto"), nat (field p "ver"), bool (field p "tls"), bool (field p "certs")⟩⟩, p))
+    let names := perms.map (·.1.name)
+    let reqs : List Req := (arr (field impl "requests")).map (fun r =>
+      ⟨str (field r "name"), nat (field r "port"), nat (field r "proto"), nat (field r "ver"), bool (field r "hasCert"),
+       bool (field r "hasClientCreds"), strList (field r "hdrName"), nat (field r "codec"), nat (field r "comp"), int (field r "t")⟩)
+    let srvs := servers (arr (field impl "servers"))
+    let returned := bool (field impl "returned")
+    -- validation (C08): a run/skip pattern matching nothing is an error and nothing is dispatched
+    let v := validate [] [] run skip names
+    let selected := if v == .ok then (perms.filter (fun p => accept run skip p.1.name)).map (·.1) else []
+    -- spec of selection by glob semantics, independent of the trie
+    let specSel := if v == .ok then
+        (perms.filter (fun p => (run.isEmpty || run.any (fun q => globMatch q p.1.name)) && !(skip.any (fun q => globMatch q p.1.name)))).map (·.1.name)
+      else []
+    let sentNames := sortStrings (reqs.map (·.name))
+    let wantNames := sortStrings (specSel.map ("/".intercalate ·))
+    let serverOK := beh == "ok" || beh == ""
+    -- (1) each selected permutation handed to the client exactly once (when servers start properly)
+    let once := if serverOK then sentNames == wantNames else sentNames.all (wantNames.contains ·) && (dedupSorted sentNames == sentNames)
+    -- (2) test name in the request headers
+    let hdrOK := reqs.all (fun r => r.hdrName == [r.name])
+    -- (3) both mode: addressed to a server alive at that time with exactly the permutation's instance, cert/creds filled in
+    let instOf (n : String) : Option Inst := (perms.find? (fun p => "/".intercalate p.1.name == n)).map (·.1.inst)
+    let addrOK := if mode != "both" then true else reqs.all (fun r =>
+      match instOf r.name with
+      | none => false
+      | some i => srvs.any (fun s => s.port == r.port && s.inst == i && s.start ≤ r.t && (match s.stop with | some e => r.t ≤ e | none => true)) &&
+          r.hasCert == i.tls && r.hasCreds == i.certs && r.proto == i.proto && r.ver == i.ver)
+    -- (4) never more than max servers alive; every started server stopped; run returned
+    let alive := maxAlive srvs
+    let boundOK := mode != "both" || alive ≤ maxS
+    let stoppedOK := srvs.all (fun s => s.stop.isSome)
+    -- (5) gRPC-peer permutations only for supported cases and under marked names
+    let grpcOK := reqs.all (fun r =>
+      if contains r.name "(grpc server impl)" || contains r.name "(grpc client impl)" || contains r.name "(grpc impl)" then
+        r.proto != 1 && (if r.proto == 3 then (r.ver == 1 || r.ver == 2) else r.ver == 2) && r.codec == 1 && (r.comp == 1 || r.comp == 2) && !r.hasCert
+      else true)
+    let holds := once && hdrOK && addrOK && boundOK && stoppedOK && returned && grpcOK
+    -- the model's plan: batches per instance
+    let insts := (perms.map (·.1.inst)).eraseDups
+    let pl := if v == .ok then plan (perms.map (·.1)) run skip insts else []
+    let planNames := sortStrings ((pl.flatMap (·.2)).map (fun p => "/".intercalate p.name))
+    let byServer := srvs.map (fun s => (s.inst, sortStrings ((reqs.filter (·.port == s.port)).map (·.name))))
+    let planBatches := pl.map (fun b => (b.1, sortStrings (b.2.map (fun p => "/".intercalate p.name))))
+    let batchesAgree := mode != "both" || !serverOK ||
+      (byServer.all (fun b => planBatches.contains b) && planBatches.all (fun b => byServer.contains b))
+    { agree := (if serverOK then sentNames == planNames else true) && batchesAgree && (selected.map (·.name) |>.map ("/".intercalate ·) |> sortStrings) == wantNames,
+      holds := holds, nontrivial := reqs.length > 1 && wantNames.length < names.length || srvs.length > 1,
+      cls := mode ++ ":" ++ beh,
+      model := Json.mkObj [("selected", wantNames.length), ("batches", pl.length), ("maxAlive", alive)],
+      why := if holds then "" else
+        (if !once then s!"selected permutations not handed out exactly once: sent {sentNames.length} want {wantNames.length}; " else "") ++
+        (if !hdrOK then "x-test-case-name header wrong; " else "") ++
+        (if !addrOK then "request addressed to a server that is not alive / not of the permutation's instance / wrong cert fields; " else "") ++
+        (if !boundOK then s!"{alive} servers alive at once, max-servers {maxS}; " else "") ++
+        (if !stoppedOK then "a started server was not stopped; " else "") ++
+        (if !returned then "run did not terminate; " else "") ++
+        (if !grpcOK then "gRPC-peer permutation issued for an unsupported case; " else "") }
+  | _ => bad ("unknown op " ++ op)
 
 end ConfModel.Driver.C05
